@@ -37,7 +37,7 @@ class database(fs_template.FsBased):
     def _getitem(self, cpv):
         path = pjoin(self.location, cpv)
         try:
-            data = readlines_utf8(path, True, True, True)
+            data = readlines_utf8(path, False, True, True)
             if data is None:
                 raise KeyError(cpv)
             return self._parse_data(data, data.mtime)
@@ -48,7 +48,8 @@ class database(fs_template.FsBased):
         d = self._cdict_kls()
         known = self._known_keys
         for x in data:
-            k, v = x.split("=", 1)
+            # only the line terminator is not part of the value
+            k, v = x.rstrip("\n").split("=", 1)
             if k in known:
                 d[k] = v
 
